@@ -30,10 +30,20 @@ CONVERTERS_RAW_TO_INT = ("convert_energy_2_internal_u",)
 CTORS = ("SpectralDensity", "CorrelationFunction", "FTCorrelationFunction")
 
 
-def energy_keys(prog, cls):
+def energy_keys(prog, cls, _depth=0):
     for c in prog.mro(cls):
         if c is not None and "energy_params" in c.attrs:
-            v = const_value(c.attrs["energy_params"])
+            node = c.attrs["energy_params"]
+            if isinstance(node, ast.Attribute) and node.attr == "energy_params" and isinstance(node.value, ast.Name) and _depth < 3:
+                # the table of another class, by reference
+                other = prog.resolve_in_module(c.module.name, node.value.id)
+                if hasattr(other, "attrs"):
+                    return energy_keys(prog, other, _depth + 1)
+                return None
+            try:
+                v = const_value(node)
+            except ValueError:
+                return None
             if isinstance(v, (tuple, list)):
                 return set(v)
             if isinstance(c.attrs["energy_params"], (ast.Tuple, ast.List)):
